@@ -439,6 +439,8 @@ type c07Case struct {
 	// the acceptance window of EVERY state is hit, also for message types of
 	// later phases that arrive before the genuine ones
 	floods []c07Flood
+	// per operating member the order in which the excluded set is handed over
+	excludedOrder map[group.MemberIndex][]group.MemberIndex
 }
 
 type c07Flood struct {
@@ -551,8 +553,13 @@ func c07Run(c *c07Case, budget time.Duration) (*c07Outcome, error) {
 			defer wg.Done()
 			exec := c07NewExecutor(pre[k])
 			validator := group.NewMembershipValidator(&testutils.MockLogger{}, addresses, signing)
+			// every member gets the excluded SET in its own order
+			excluded := c.excluded
+			if o, ok := c.excludedOrder[idx]; ok {
+				excluded = o
+			}
 			res, err := exec.Execute(ctx, &testutils.MockLogger{}, big.NewInt(100), "session-verif", idx,
-				c.n, c.dishonest, c.excluded, &c07Chan{hub, idx}, validator)
+				c.n, c.dishonest, excluded, &c07Chan{hub, idx}, validator)
 			mu.Lock()
 			out.results[idx], out.errs[idx] = res, err
 			mu.Unlock()
@@ -666,6 +673,13 @@ func c07Generate(t *rapid.T, n, dishonest int) *c07Case {
 		}
 		c.injects = append(c.injects, in)
 	}
+	// the excluded members are a set: each member is handed its own ordering
+	if len(c.excluded) > 1 {
+		c.excludedOrder = map[group.MemberIndex][]group.MemberIndex{}
+		for _, m := range c.operating {
+			c.excludedOrder[m] = rapid.Permutation(c.excluded).Draw(t, fmt.Sprintf("excludedOrder-m%d", m))
+		}
+	}
 	// floods: 0..2 periodic injections
 	nFlood := rapid.IntRange(0, 2).Draw(t, "floods")
 	for i := 0; i < nFlood; i++ {
@@ -769,7 +783,7 @@ func c07Property(st *verifkit.Stats, n, dishonest int) func(t *rapid.T) {
 				}
 			}
 			sort.Strings(errs)
-			control := &c07Case{n: c.n, dishonest: c.dishonest, excluded: c.excluded, operating: c.operating, plan: map[string]int{}}
+			control := &c07Case{n: c.n, dishonest: c.dishonest, excluded: c.excluded, operating: c.operating, plan: map[string]int{}, excludedOrder: c.excludedOrder}
 			cout, cerr := c07Run(control, budget)
 			if cerr == nil && c07CheckOutcome(t, control, cout) == len(c.operating) {
 				t.Fatalf("only %d of %d operating members completed (errors: %s) while the same group WITHOUT injected/held/duplicated messages completes: injected or re-ordered messages influenced the outcome; %s",
